@@ -62,6 +62,9 @@ class BrownianHooks(Hooks):
             pool = kwargs.get("pool_size")
 
             return _seed_sequence(ent, tuple(spawn) if isinstance(spawn, (tuple, list)) else spawn, pool)
+        if dotted == "trampoline.trampoline":
+            # the trampoline runs the generator (and every generator it tail-calls or yields) to completion
+            return interp.drive(args[0], node, fi)
         if dotted == "torch.zeros":
             self.zeros_calls.append((args, kwargs, node))
             return Rat.const(0)
